@@ -2,13 +2,13 @@
 from verif import *
 from props.routers import *
 
-THEOREMS = []
+THEOREMS = ['c02_no_reply_lost', 'c02_origin_unforgeable']
 
 
 def run(tier, seed, replay=None):
     check = Check('C02', tier, seed)
     if THEOREMS:
-        prove(check, '', THEOREMS)
+        prove(check, 'theories/Props_C02.v', THEOREMS)
     engines = ['rr']
     if replay:
         head = open(replay).read(4000)
